@@ -32,7 +32,7 @@ RULE = ("pure: random body pairs (b derived from a by 0-6 random edits, or indep
         "edits change it. non-trivial = the pair differs in at least one leaf or the write set is non-empty; distinct = hash of (a,b) or of (body, config, writes). "
         "loop: two-operator and field-handler scenarios; distinct = hash of handler call sequence")
 ASSUMPTIONS = ["JSON equality modulo null==absent", "fake API server semantics for the closed-loop part"]
-GATES = {'o5_selfcheck': 20, 'o1_pairs': 1000, 'o1_nonempty': 500, 'o2_fields': 2000, 'o3_writes': 500, 'o4_edits': 500, 'loop_calls_with_diff': 50, 'two_operator_runs': 1}
+GATES = {'o5_selfcheck': 20, 'o1_pairs': 1000, 'o1_nonempty': 500, 'o2_fields': 2000, 'o3_writes': 500, 'o4_edits': 500, 'loop_calls_with_diff': 50, 'two_operator_runs': 1, 'repo_test_diff_evaluations': 0}
 
 KEY_ALPHABET = ['a', 'b', 'c', 'x.y', 'p/q', 'ключ', '', 'a b', '0', 'kopf', 'status', 'spec', 'metadata', 'élan', '~t', 'true']
 LEAVES: list[Any] = [0, 1, 2, -1, 1.5, 0.0, True, False, None, '', 'a', 'b', 'строка', '0', '1', 'true', [], {}, [1, 2], [{'a': 1}], [None]]
@@ -119,6 +119,8 @@ def gen_cases(tier: str, seed: int):
     cases: list[dict[str, Any]] = []
     for i in range(nb):
         cases.append({'name': f'pure{i}', 'mode': 'pure', 'seed': rng.randrange(1 << 30), 'n': 150})
+    if tier != 'quick':
+        cases.append({'name': 'repotests', 'mode': 'repotests'})     # the repository's own tests, run with the recording contract on
     nl = 160 if tier == 'quick' else 4000
     for i in range(nl):
         cases.append({'name': f'loop{i}', 'mode': 'loop', 'seed': rng.randrange(1 << 30), 'variant': ['two', 'field'][i % 2]})
@@ -126,7 +128,25 @@ def gen_cases(tier: str, seed: int):
 
 
 def run_case(case: dict[str, Any]) -> dict[str, Any]:
+    if case['mode'] == 'repotests':
+        return run_repotests()
     return run_pure(case) if case['mode'] == 'pure' else run_loop(case)
+
+
+def run_repotests() -> dict[str, Any]:
+    """The repository's own tests as a workload: every diff(a, b) of plain JSON documents they compute must rebuild b from a."""
+    from kv.repotests import run_with_contracts
+    rep = run_with_contracts()
+    cov = {k: 0 for k in GATES}
+    viol: list[dict[str, Any]] = []
+    d = rep.get('diff') or {}
+    cov['repo_test_diff_evaluations'] = int(d.get('evaluations', 0))
+    for x in d.get('disagreements', []):
+        viol.append({'mech': 'diff-does-not-rebuild-in-repo-tests', 'msg': f"a diff computed in {x.get('test')}: applying {x['diff']} to {x['a']} does not give {x['b']}", 'witness': x})
+    if d.get('known_bool_int'):
+        viol.append({'mech': 'bool-int-conflation', 'msg': f"{d['known_bool_int']} diff(s) computed by the repository's tests conflate booleans with equal numbers", 'witness': None})
+    return {'violations': viol[:5], 'cov': cov, 'sig': 'repotests', 'nontrivial': cov['repo_test_diff_evaluations'] > 0,
+            'sample': {'report': {k: v for k, v in rep.items() if k in ('pytest_rc', 'pytest_tail', 'error')}, 'diff_evaluations': cov['repo_test_diff_evaluations']}}
 
 
 # ------------------------------------------------------------------------------------------
